@@ -19,6 +19,8 @@ destination: the repaired `.dat.tar` regeneration in `PackageData`), `regen` (`o
 shape of the mutation "write under the final name"), `read` (open + read, with or without
 an integrity check: gzip members carry a CRC/length trailer, a plain tar does not), `readNewest`
 (fetchOffline: newest directory entry by mtime).  `mark` is the position of a `verifhook.Point`.
+`unsigned k` is not a file-system operation: it marks the point at which `cachedPackage` goes on with a
+package whose signature section `k` it did not find (`Signed = false`, the size without the signature).
 
 A builder is a `Prog` (a tree: operations and `Stat` branches).  A crash is a builder that is never
 scheduled again; concurrency is an arbitrary schedule over a pool of builders (`Nat → Proc`, any
@@ -91,6 +93,7 @@ inductive Op where
   | regen (dst : Name) (c : Cid)
   | read (n : Name) (checked : Bool)
   | readNewest (cands : List Name)
+  | unsigned (k : Cid)
   deriving DecidableEq, Repr
 
 inductive Prog where
@@ -175,6 +178,7 @@ def stepOp (fs : FS) (obs : List Obs) : Op → Option (FS × List Obs)
       match fs.resolve n with
       | none => none
       | some (c, b) => if !b then none else some (fs, obs ++ [(n, c, b)])
+  | .unsigned _ => some (fs, obs)
 
 def isMark : Op → Bool
   | .mark _ => true
@@ -249,6 +253,16 @@ def isRegen : Op → Bool
   | .regen _ _ => true
   | _ => false
 
+def isUnsigned : Op → Bool
+  | .unsigned _ => true
+  | _ => false
+
+/-- the operation builder `i` would perform next is "use the package without its signature" -/
+def State.atUnsigned (s : State) (i : Nat) : Bool :=
+  match (s.procs i).prog with
+  | .op o _ => isUnsigned o
+  | _ => false
+
 /-- the operation builder `i` would perform next is the regeneration write under the final name -/
 def State.atRegen (s : State) (i : Nat) : Bool :=
   match (s.procs i).prog with
@@ -301,47 +315,135 @@ def pkgDataOld (k2 k3 : Cid) (n : Nat) (rest : Prog) : Prog :=
 /-- what the build does with an expanded package: `installPackage` reopens the control file -/
 def pkgUse (k1 : Cid) : Prog := .op (.read (.adv k1) true) (.halt true)
 
-/-- cache miss: `ExpandApk` into a fresh `expand-apk*` directory, `cachePackage` (three advertises
-for an unsigned apk; a signature section would be a fourth, handled like the control section);
-`pd` is the `PackageData` call at the end of `cachePackage` -/
-def pkgMissWith (pd : Prog → Prog) (t1 t2 t3 : Name) (k1 k2 k3 : Cid) (n : Nat) : Prog :=
+/-- the head of `ExpandApk`.  Unsigned apk (`sg = none`): the control member is stream-0; when it is
+closed `expandApkWriter.Next` reopens it to look for a `.SIGN.` entry.  Signed apk (`sg = some (t0, k0)`:
+temp name and content id of the signature section): the signature member is stream-0 (it is the one
+`Next` parses), the control member is stream-1. -/
+def expandHead (sg : Option (Name × Cid)) (t1 : Name) (k1 : Cid) (n : Nat) (rest : Prog) : Prog :=
+  match sg with
+  | none =>
+    .op (.create t1 k1) <| .op (.mark 1) <| chunks n t1 <| .op (.finish t1) <| .op (.read t1 true) rest
+  | some (t0, k0) =>
+    .op (.create t0 k0) <| .op (.mark 13) <| chunks n t0 <| .op (.finish t0) <| .op (.read t0 true) <|
+    .op (.create t1 k1) <| .op (.mark 1) <| chunks n t1 <| .op (.finish t1) rest
+
+/-- `cachePackage`'s `if exp.SignatureFile != ""` block: the signature section is advertised under
+`<control hash>.sig.tar.gz` (final name `adv k0`: a control section is served with one signature) -/
+def advSig (sg : Option (Name × Cid)) (rest : Prog) : Prog :=
+  match sg with
+  | none => rest
+  | some (t0, k0) => advertise t0 k0 <| .op (.mark 14) rest
+
+/-- `ExpandApk` into a fresh `expand-apk*` directory, then `tail` (= `cachePackage`) -/
+def pkgExpand (sg : Option (Name × Cid)) (t1 t2 t3 : Name) (k1 k2 k3 : Cid) (n : Nat) (tail : Prog) : Prog :=
   .op .mkdir <| .op .mkdir <| .op (.mark 0) <|
-  .op (.create t1 k1) <| .op (.mark 1) <|
-  chunks n t1 <| .op (.finish t1) <| .op (.read t1 true) <|
+  expandHead sg t1 k1 n <|
   .op (.create t2 k2) <| .op (.mark 2) <|
   .op (.create t3 k3) <| .op (.mark 3) <|
   chunks n t2 <| chunks n t3 <| .op (.finish t3) <| .op (.finish t2) <| .op (.mark 4) <|
-  .op (.read t1 true) <| .op (.read t3 false) <| .op (.mark 5) <|
+  .op (.read t1 true) <| .op (.read t3 false) <| .op (.mark 5) tail
+
+/-- `cachePackage`: the advertises in the code's order — control, signature (signed apk only), data,
+tar — with a marker after each; `pd` is the `PackageData` call at its end -/
+def cacheTail (pd : Prog → Prog) (sg : Option (Name × Cid)) (t1 t2 t3 : Name) (k1 k2 k3 : Cid) : Prog :=
   advertise t1 k1 <| .op (.mark 6) <|
+  advSig sg <|
   advertise t2 k2 <| .op (.mark 7) <|
   advertise t3 k3 <| .op (.mark 8) <|
   pd (pkgUse k1)
 
-/-- `expandPackage`: `cachedPackage` (hit when control and data resolve; `.dat.tar` is regenerated when
-it alone is missing), otherwise the miss path -/
-def pkgBuilderWith (pd : Prog → Prog) (t1 t2 t3 : Name) (k1 k2 k3 : Cid) (n : Nat) : Prog :=
+/-- the regression "signature advertised last" (control, data, tar, signature): kept for the negative
+theorem `hit_has_signature_fails_sig_last` -/
+def cacheTailSigLast (pd : Prog → Prog) (sg : Option (Name × Cid)) (t1 t2 t3 : Name) (k1 k2 k3 : Cid) : Prog :=
+  advertise t1 k1 <| .op (.mark 6) <|
+  advertise t2 k2 <| .op (.mark 7) <|
+  advertise t3 k3 <| .op (.mark 8) <|
+  advSig sg <|
+  pd (pkgUse k1)
+
+/-- cache miss: `ExpandApk`, `cachePackage` -/
+def pkgMissWith (pd : Prog → Prog) (sg : Option (Name × Cid)) (t1 t2 t3 : Name) (k1 k2 k3 : Cid) (n : Nat) : Prog :=
+  pkgExpand sg t1 t2 t3 k1 k2 k3 n (cacheTail pd sg t1 t2 t3 k1 k2 k3)
+
+/-- `cachedPackage`'s look-up of the signature section, once control and data have been found: present →
+`Signed = true`, `os.ReadFile` (no integrity check); absent → the package is used as an unsigned one -/
+def sigProbe (sg : Option (Name × Cid)) (rest : Prog) : Prog :=
+  match sg with
+  | none => rest
+  | some (_, k0) => .ifStat (.adv k0) (.op (.read (.adv k0) false) rest) (.op (.unsigned k0) rest)
+
+/-- `expandPackage`: `cachedPackage` (a hit requires the control and the data section; the signature is
+looked up after the data section was found (fix F19c); `.dat.tar` is regenerated when it alone is
+missing), otherwise the miss path.  Marker 12 = `hit.probe`. -/
+def pkgBuilderWith (pd : Prog → Prog) (sg : Option (Name × Cid)) (t1 t2 t3 : Name) (k1 k2 k3 : Cid) (n : Nat) : Prog :=
   .ifStat (.adv k1)
     (.op (.read (.adv k1) true)
       (.ifStat (.adv k2)
-        (pd (pkgUse k1))
-        (pkgMissWith pd t1 t2 t3 k1 k2 k3 n)))
-    (pkgMissWith pd t1 t2 t3 k1 k2 k3 n)
+        (.op (.mark 12) <| sigProbe sg <| pd (pkgUse k1))
+        (pkgMissWith pd sg t1 t2 t3 k1 k2 k3 n)))
+    (pkgMissWith pd sg t1 t2 t3 k1 k2 k3 n)
 
-def pkgMiss (t1 t2 t3 t4 : Name) (k1 k2 k3 : Cid) (n : Nat) : Prog :=
-  pkgMissWith (pkgData t4 k2 k3 n) t1 t2 t3 k1 k2 k3 n
+def pkgMiss (sg : Option (Name × Cid)) (t1 t2 t3 t4 : Name) (k1 k2 k3 : Cid) (n : Nat) : Prog :=
+  pkgMissWith (pkgData t4 k2 k3 n) sg t1 t2 t3 k1 k2 k3 n
 
-def pkgBuilder (t1 t2 t3 t4 : Name) (k1 k2 k3 : Cid) (n : Nat) : Prog :=
-  pkgBuilderWith (pkgData t4 k2 k3 n) t1 t2 t3 k1 k2 k3 n
+def pkgBuilder (sg : Option (Name × Cid)) (t1 t2 t3 t4 : Name) (k1 k2 k3 : Cid) (n : Nat) : Prog :=
+  pkgBuilderWith (pkgData t4 k2 k3 n) sg t1 t2 t3 k1 k2 k3 n
 
 /-- the builder of the tree before the fix F19a -/
 def pkgBuilderOld (t1 t2 t3 : Name) (k1 k2 k3 : Cid) (n : Nat) : Prog :=
-  pkgBuilderWith (pkgDataOld k2 k3 n) t1 t2 t3 k1 k2 k3 n
+  pkgBuilderWith (pkgDataOld k2 k3 n) none t1 t2 t3 k1 k2 k3 n
 
-/-- offline the miss path cannot fetch: `FetchPackage` fails -/
-def pkgOffline (t4 : Name) (k1 k2 k3 : Cid) (n : Nat) : Prog :=
+/-- the builder with the regression "signature advertised last" -/
+def pkgBuilderSigLast (sg : Option (Name × Cid)) (t1 t2 t3 t4 : Name) (k1 k2 k3 : Cid) (n : Nat) : Prog :=
+  let miss := pkgExpand sg t1 t2 t3 k1 k2 k3 n (cacheTailSigLast (pkgData t4 k2 k3 n) sg t1 t2 t3 k1 k2 k3)
   .ifStat (.adv k1)
     (.op (.read (.adv k1) true)
-      (.ifStat (.adv k2) (pkgData t4 k2 k3 n (pkgUse k1)) (.halt false)))
+      (.ifStat (.adv k2)
+        (.op (.mark 12) <| sigProbe sg <| pkgData t4 k2 k3 n (pkgUse k1))
+        miss))
+    miss
+
+/-- the builder of the tree before the fix F19c: `cachedPackage` looked the signature up *before* the
+data section, i.e. in the same order in which `cachePackage` advertises them — a reader must probe in
+the opposite order of the writer.  Kept for the negative theorem `f19c_race`. -/
+def pkgBuilderRacy (sg : Option (Name × Cid)) (t1 t2 t3 t4 : Name) (k1 k2 k3 : Cid) (n : Nat) : Prog :=
+  let pd := pkgData t4 k2 k3 n
+  let miss := pkgMissWith pd sg t1 t2 t3 k1 k2 k3 n
+  .ifStat (.adv k1)
+    (.op (.read (.adv k1) true) <|
+      match sg with
+      | none => .op (.mark 12) <| .ifStat (.adv k2) (pd (pkgUse k1)) miss
+      | some (_, k0) =>
+        .ifStat (.adv k0)
+          (.op (.read (.adv k0) false) <| .op (.mark 12) <| .ifStat (.adv k2) (pd (pkgUse k1)) miss)
+          (.op (.mark 12) <| .ifStat (.adv k2) (.op (.unsigned k0) (pd (pkgUse k1))) miss))
+    miss
+
+/-- offline the miss path cannot fetch: `FetchPackage` fails -/
+def pkgOffline (sg : Option (Name × Cid)) (t4 : Name) (k1 k2 k3 : Cid) (n : Nat) : Prog :=
+  .ifStat (.adv k1)
+    (.op (.read (.adv k1) true)
+      (.ifStat (.adv k2)
+        (.op (.mark 12) <| sigProbe sg <| pkgData t4 k2 k3 n (pkgUse k1))
+        (.halt false)))
     (.halt false)
+
+/-! ### the result of a cache hit as a function of the directory (what `cachedPackage` returns on a
+quiescent directory) and what a fetch produces -/
+
+/-- the sections a hit hands to the build, in the order signature, control, data; `none` = miss.
+`Signed` is "the list has three elements", `Size` is the sum of the sections' sizes. -/
+def hitSections (fs : FS) (sg : Option Cid) (k1 k2 : Cid) : Option (List (Cid × Bool)) :=
+  if fs.stat (.adv k1) && fs.stat (.adv k2) then
+    some ((match sg with
+           | some k0 => (fs.resolve (.adv k0)).toList
+           | none => []) ++ (fs.resolve (.adv k1)).toList ++ (fs.resolve (.adv k2)).toList)
+  else none
+
+/-- what `ExpandApk` on the fetched apk produces -/
+def fetchSections (sg : Option Cid) (k1 k2 : Cid) : List (Cid × Bool) :=
+  (sg.toList ++ [k1, k2]).map fun k => (k, true)
+
+def sectionsSize (size : Cid → Nat) (l : List (Cid × Bool)) : Nat := (l.map fun s => size s.1).sum
 
 end Apko.Cache
